@@ -189,6 +189,23 @@ func main() {
 		os.WriteFile(name+".tmp", eb, 0o644)
 		os.Rename(name+".tmp", name)
 	}
+	if os.Getenv("STAGEBIN_PY") != "" {
+		// called from a python stage module (adapters/python): the module
+		// hands the values to the adapter, which writes them; a fault is
+		// acted out in python (exception, martian.exit, os._exit, kill)
+		env := jsonx.NewObj()
+		env.Set("outs", outs)
+		if has {
+			f := jsonx.NewObj()
+			f.Set("kind", fault.Kind)
+			f.Set("text", fault.Text)
+			env.Set("fault", f)
+		}
+		rec.Outs = json.RawMessage(jsonx.Marshal(outs))
+		write()
+		os.Stdout.Write(jsonx.Marshal(env))
+		return
+	}
 	b := jsonx.MarshalStyle(outs, simrun.OutsStyle(id))
 	if has {
 		switch fault.Kind {
